@@ -38,13 +38,6 @@ theorem SecSaved.fields {a b : SecBuf} (h : SecSaved a b) :
     b.index = a.index ∧ b.cls = a.cls := by
   rw [h.rest]; exact ⟨rfl, rfl, rfl, rfl, rfl, rfl, rfl, rfl, rfl, rfl, rfl⟩
 
-/-- segment `g'` is `g` after a `save()` -/
-structure SegSaved (c : Cls) (g g' : Seg) : Prop where
-  frame : SegFrame c g g'
-  /-- either the segment was not laid out at all, or its offset is now initialised -/
-  placed : (g'.offset = g.offset ∧ g'.filesz = g.filesz ∧ g'.memsz = g.memsz ∧ g'.offsetSet = g.offsetSet) ∨
-    g'.offsetSet = true
-
 theorem SegSaved.fields {c : Cls} {g g' : Seg} (h : SegSaved c g g') :
     g'.stype = g.stype ∧ g'.flags = g.flags ∧ g'.vaddr = g.vaddr ∧ g'.paddr = g.paddr ∧
     g'.secs = g.secs ∧ g'.index = g.index ∧ g.align.toNat ≤ g'.align.toNat ∧
@@ -56,66 +49,14 @@ theorem SegSaved.fields {c : Cls} {g g' : Seg} (h : SegSaved c g g') :
     `filesz`, `memsz` (grows), `align` (grows), `offsetSet` (`SegSaved`); class, byte order and address
     translation of the object are untouched.  Frame theorem over `calc_segment_alignment`, the
     segment loop (`write_segment_data` by induction over the member lists), the loose sections and
-    the residency pass.  Hypothesis `SegIdxOk`: segments carry their position as index (the
-    "put back by index" step of the model relies on it; true below 65536 segments). -/
+    the residency pass (`save_frames`).  Hypothesis `SegIdxOk`: segments carry their position as
+    index (the "put back by index" step of the model relies on it; true below 65536 segments). -/
 theorem save_writes_fields {o : Obj} {os : OStream} {r : SaveRes} (h : save o os = .ok r) (hok : r.ok = true)
     (hidx : SegIdxOk o.segs) :
     FrameL SecSaved o.secs r.obj.secs ∧ FrameL (SegSaved o.cls) o.segs r.obj.segs ∧
     r.obj.cls = o.cls ∧ r.obj.enc = o.enc ∧ r.obj.trans = o.trans := by
-  obtain ⟨hd, segs1, ordered, lay, done, hh, hf, h1, h2, h3, rfl⟩ := save_ok_unfold h hok
-  obtain ⟨_, eobj, _, _⟩ := saveTail_ok hok
-  rw [eobj]
-  simp only
-  -- segments
-  have fa := mapM_ok_frame h1
-  have hidx1 : SegIdxOk segs1 := by
-    intro k g hg
-    have hk : k < o.segs.length := by
-      rw [← fa.1]
-      rcases Nat.lt_or_ge k segs1.length with hlt | hge
-      · exact hlt
-      · rw [List.getElem?_eq_none hge] at hg; cases hg
-    have := fa.2 k o.segs[k] g (List.getElem?_eq_getElem hk) hg
-    rw [(calcSegAlign_frame (c := o.cls) this).1.index]
-    exact hidx k _ (List.getElem?_eq_getElem hk)
-  obtain ⟨ds, ed, run⟩ := saveFold_run ordered h3
-  simp only [List.nil_append] at ed
-  subst ed
-  obtain ⟨fsec, _, fseg⟩ := run.frame
-  have hsub := orderedSegments_sub h2
-  have pb := putBack_frame (c := o.cls) hidx1 (fun d hd' => by
-    obtain ⟨g, hg, fr⟩ := forall₂_mem_right fseg hd'
-    exact ⟨g, hsub g hg, fr⟩)
-  refine ⟨?_, ?_, by first | rfl | trivial, by first | rfl | trivial, by first | rfl | trivial⟩
-  · -- sections: segment loop, loose sections, residency
-    obtain ⟨l1, e1, f1⟩ := layoutLoose_frame o.cls (putBack segs1 done) lay.secs 0 lay.pos []
-    obtain ⟨l2, e2, f2⟩ := residentForSave_frame o.cls o.trans l1 { st := o.stream } []
-    simp only [List.reverse_nil, List.nil_append] at e1 e2
-    have fs : FrameL SecFrame o.secs l1 :=
-      FrameL.trans (R := SecFrame) (fun _ _ _ => SecFrame.trans) fsec f1
-    have e : tailSecs o segs1 lay done = l2 := by
-      unfold tailSecs tailLoose; rw [e1, e2]
-    rw [e]
-    refine ⟨f2.1.trans fs.1, fun i a b ha hb => ?_⟩
-    have hi : i < l1.length := by
-      rw [fs.1]
-      rcases Nat.lt_or_ge i o.secs.length with hlt | hge
-      · exact hlt
-      · rw [List.getElem?_eq_none hge] at ha; cases ha
-    exact secSaved_of (fs.2 i a l1[i] ha (List.getElem?_eq_getElem hi))
-      (f2.2 i l1[i] b (List.getElem?_eq_getElem hi) hb)
-  · -- segments: alignment pass, then put back
-    refine ⟨pb.1.trans fa.1, fun i a b ha hb => ?_⟩
-    have hi : i < segs1.length := by
-      rw [fa.1]
-      rcases Nat.lt_or_ge i o.segs.length with hlt | hge
-      · exact hlt
-      · rw [List.getElem?_eq_none hge] at ha; cases ha
-    have c1 := calcSegAlign_frame (c := o.cls) (fa.2 i a segs1[i] ha (List.getElem?_eq_getElem hi))
-    have c2 := pb.2 i segs1[i] b (List.getElem?_eq_getElem hi) hb
-    refine ⟨SegFrame.trans c1.1 c2.1, ?_⟩
-    rcases c2.2 with e | e
-    · left; rw [e]; exact c1.2
-    · exact Or.inr e
+  obtain ⟨⟨l1, f1, f2⟩, fs, e1, e2, e3⟩ := save_frames h hok hidx
+  exact ⟨FrameL.comp (R := Placed o.cls) (S := ResFrame) (T := SecSaved)
+    (fun a m b h1 h2 => secSaved_of (Placed.frame h1) h2) f1 f2, fs, e1, e2, e3⟩
 
 end ElfioVerif.C05
